@@ -752,6 +752,31 @@ var limitProgs = []limitProg{
 	// many arguments given to a protected call from Go
 	{name: "args-api", kind: "reg", apiArgs: true, want: func(n int) int { return n },
 		src: `return function(...) mark() return select('#', ...) end`},
+	// limits hit under xpcall while closures created in the frames being unwound have escaped:
+	// the handler call fails again at the exhausted depth (PCall's second recovery path); afterwards the
+	// closures must still own their variables
+	{name: "rec-xpcall-up", kind: "call", want: func(n int) int { return n },
+		src: `local keep = {}
+		      local function rec(n) local x = n keep[#keep + 1] = function() x = x + 1 return x end
+		        if n == 0 then return mark() end return 1 + rec(n - 1) end
+		      local ok, v = xpcall(function() return rec(N) end, function(m) return m end)
+		      local function clobber(...) local a, b, c, d, e, f, g, h = ... return (a or 0) + (h or 0) end
+		      for i = 1, 6 do clobber(101, 102, 103, 104, 105, 106, 107, 108) end
+		      local sum, want = 0, 0
+		      for i = 1, #keep do sum = sum + keep[i]() + keep[i]() want = want + 2 * (N - i + 1) + 3 end
+		      if sum ~= want then return false, "escaped closures lost their variables: " .. sum .. " ~= " .. want end
+		      return ok, v`},
+	{name: "deep-regs-xpcall-up", kind: "reg", want: func(n int) int { return n },
+		src: `local keep = {}
+		      local function rec(n) local x, b, c, d, e, f, g, h = n, 2, 3, 4, 5, 6, 7, 8 keep[#keep + 1] = function() x = x + 1 return x end
+		        if n == 0 then return mark() end return 1 + rec(n - 1) + (b - b) end
+		      local ok, v = xpcall(function() return rec(N) end, function(m) return m end)
+		      local function clobber(...) local a, b, c, d, e, f, g, h = ... return (a or 0) + (h or 0) end
+		      for i = 1, 6 do clobber(101, 102, 103, 104, 105, 106, 107, 108) end
+		      local sum, want = 0, 0
+		      for i = 1, #keep do sum = sum + keep[i]() + keep[i]() want = want + 2 * (N - i + 1) + 3 end
+		      if sum ~= want then return false, "escaped closures lost their variables: " .. sum .. " ~= " .. want end
+		      return ok, v`},
 	{name: "pushn", kind: "reg", want: func(n int) int { return n },
 		src: `return pcall(function() mark() return pushn(N) end)`},
 	{name: "rec-api", kind: "call", api: true, want: func(n int) int { return n },
